@@ -949,6 +949,7 @@ func main() {
 	phase("random", func() { runRandom(r, rp, rng) })
 	phase("readers-vs-writer", func() { runConcurrent(r, rp, rng) })
 	phase("two-writers", func() { runTwoWriters(r, rng) })
+	phase("three-writers", func() { runThreeWriters(r, rng) })
 	phase("writer-vs-reader", func() { runWriterVsReader(r, rng) })
 	phase("writer-vs-initialize", func() { runWriterVsInitialize(r, rng) })
 	phase("free-writers", func() { runFreeWriters(r, rng) })
